@@ -60,6 +60,12 @@ def cli_run(prop, tier):
     return cli.run_cli(prop, tier)
 
 
+def cli_run_light(prop, tier):
+    # the quick-sized stream set in both tiers: the deep CLI exploration belongs to C20's own thorough check
+    from . import cli
+    return cli.run_cli(prop, "quick")
+
+
 def cli_twin_run(prop, tier):
     from . import cli
     return cli.run_cli_twin(prop, tier)
@@ -227,7 +233,7 @@ PLANS = {
 # tool: it is the one caller of the library inside the repository, and a change there (trimming, re-encoding,
 # resetting the parser) alters what "a line is accepted" means for its users
 for _pid in ("C02", "C05", "C06", "C08", "C09"):
-    PLANS[_pid]["custom"] = list(PLANS[_pid].get("custom", [])) + [dict(run=cli_run)]
+    PLANS[_pid]["custom"] = list(PLANS[_pid].get("custom", [])) + [dict(run=cli_run_light)]
 
 PLANS["C17"]["custom"] = list(PLANS["C17"].get("custom", [])) + [dict(run=cli_twin_run)]
 
